@@ -454,3 +454,27 @@ fn c02_l1_update_las() {
     vassert!(las_of(&r) == want, "C02/l1: the bitvec range fill of update_las_from_token_pass equals the model's mask arithmetic");
     kani::cover!(da <= sa, "cover: wrap-around pass");
 }
+
+/// Leaf: the REAL `update_las_from_token_pass` (range fill, set, and its own control flow up to
+/// the neighbour search) == model, for ALL ring views that satisfy TokenRing's invariant and
+/// ALL passes; only the neighbour search `update_next_previous` is replaced by the model (it is
+/// the one leaf without a verdict, DESIGN section 0).  `c02_l1_update_las` above exercises the
+/// same bitvec operations on a copy of the code; this one runs the function itself, so that a
+/// change inside it (e.g. skipping the neighbour search when the LAS "did not change") is seen.
+#[kani::proof]
+#[kani::stub(TokenRing::update_next_previous, model_update_next_previous)]
+#[kani::unwind(130)]
+fn c02_l1_update_las_real() {
+    let ts: u8 = kani::any();
+    kani::assume(ts <= 125);
+    let m0 = any_model(ts);
+    let mut r = from_model(&m0);
+    let mut m = m0;
+    let sa: u8 = kani::any();
+    let da: u8 = kani::any();
+    kani::assume(sa <= 125 && da <= 125);
+    r.update_las_from_token_pass(sa, da);
+    m.update_from_pass(sa, da);
+    vassert!(same(&r, &m), "C02/l1: update_las_from_token_pass leaves the LAS the model computes (stations jumped over removed, sender entered) and NS/PS are the neighbours in the NEW list");
+    kani::cover!(da <= sa && m.las != m0.las && m.ps != m0.ps, "cover: wrap-around pass that changes the predecessor");
+}
